@@ -24,8 +24,8 @@ Variable c : cfg.
 Hypothesis Hs : 0 <= s.
 Let o := ops_of k s.
 
-(* what every recorded value must satisfy: the comparison key is the value, and it lies between the sentinels *)
-Definition good_val (v : Z) : Prop := o_key o v = true_key k s v /\ o_max0 o <= v <= o_min0 o.
+(* what every recorded value must satisfy: the bucket search compares it exactly, and it lies between the sentinels *)
+Definition good_val (v : Z) : Prop := (forall b, o_lt o b v = (b <? true_key k s v)) /\ o_max0 o <= v <= o_min0 o.
 
 (* the sum of a register, as far as the SPEC looks at it *)
 Definition sumc (xs : list Z) (h : hist) : Prop :=
@@ -35,7 +35,7 @@ Definition sumc (xs : list Z) (h : hist) : Prop :=
   end.
 
 Definition reg_ok (h : hist) (y : sym) : Prop :=
-  y_bad y = false /\ y_tainted y = false /\ y_rmm y = c_rmm c /\
+  y_bad y = false /\ y_basis y = y_vals y /\ y_rmm y = c_rmm c /\
   Forall good_val (y_vals y) /\
   nosum h = nosum (agg o c (y_vals y)) /\ sumc (y_vals y) h.
 
@@ -44,7 +44,7 @@ Proof. repeat split. Qed.
 
 Lemma reg_ok_new : reg_ok (new_hist o c) (sym0 (c_rmm c)).
 Proof.
-  unfold reg_ok. cbn [sym0 y_bad y_tainted y_rmm y_vals]. repeat split; try constructor.
+  unfold reg_ok. cbn [sym0 y_bad y_basis y_rmm y_vals]. repeat split; try constructor.
   unfold sumc. destruct k; [reflexivity|intros q _; reflexivity].
 Qed.
 
@@ -80,7 +80,8 @@ Proof.
   - split; [apply Forall2_set_nth_het; [exact H|apply reg_ok_new]|constructor].
   - split; [|constructor]. apply Forall2_set_nth_het; [exact H|].
     destruct (Hget r) as (H1 & H2 & H3 & H4 & H5 & H6).
-    unfold reg_ok. cbn [y_bad y_tainted y_rmm y_vals]. repeat split; try assumption.
+    unfold reg_ok. cbn [y_bad y_basis y_rmm y_vals]. repeat split; try assumption.
+    + rewrite H2. reflexivity.
     + apply Forall_app. split; [exact H4|constructor; [exact Hg|constructor]].
     + rewrite (nosum_aggregate o o same_refl _ _ v H5).
       unfold agg. rewrite fold_left_app. reflexivity.
@@ -88,7 +89,7 @@ Proof.
   - split; [exact H|constructor].
   - split; [|constructor]. apply Forall2_set_nth_het; [exact H|].
     destruct (Hget a) as (A1 & A2 & A3 & A4 & A5 & A6). destruct (Hget b) as (B1 & B2 & B3 & B4 & B5 & B6).
-    unfold reg_ok. cbn [y_bad y_tainted y_rmm y_vals]. rewrite A1, A2, A3, B1, B2, B3. cbn [orb].
+    unfold reg_ok. cbn [y_bad y_basis y_rmm y_vals]. rewrite A1, A2, A3, B1, B2, B3. cbn [orb].
     repeat split; try reflexivity.
     + apply andb_diag.
     + apply Forall_app. split; assumption.
@@ -205,14 +206,14 @@ Qed.
 
 End Machine.
 
-(* every finite double, and every int64 up to 2^53 in magnitude, is a good value *)
+(* every finite double and every int64 is a good value *)
 Lemma good_val_double : forall s b d, 0 <= s -> decode b = Some d -> good_val KDbl s (to_scale s d).
-Proof. intros s b d Hs Hd. split; [reflexivity|]. apply (double_within_sentinels s b d Hs Hd). Qed.
-Lemma good_val_long : forall s v, 0 <= s -> Z.abs v <= 2 ^ 53 -> good_val KLong s v.
+Proof. intros s b d Hs Hd. split; [intros b0; reflexivity|]. apply (double_within_sentinels s b d Hs Hd). Qed.
+Lemma good_val_long : forall s v, 0 <= s -> - 2 ^ 63 <= v < 2 ^ 63 -> good_val KLong s v.
 Proof.
   intros s v Hs Hv. split.
-  - cbn [ops_of long_ops o_key true_key]. apply long_key_exact; assumption.
-  - apply long_within_sentinels. change (2 ^ 63) with 9223372036854775808. change (2 ^ 53) with 9007199254740992 in Hv. lia.
+  - intros b. cbn [ops_of long_ops o_lt true_key]. apply long_lt_exact; assumption.
+  - apply long_within_sentinels. exact Hv.
 Qed.
 
 (* non-vacuity: an operation sequence meeting the hypotheses, with a merge of two parts and of a register with itself *)
@@ -223,7 +224,6 @@ Example machine_example :
     (map point_of (run_aops (long_ops 0) (mkC [10; 20] true) (init_regs (long_ops 0) (mkC [10; 20] true)) l)) = [].
 Proof.
   cbn zeta. split; [repeat constructor|]. split.
-  - repeat constructor; cbn [good_op good_val ops_of]; try (apply long_key_exact; vm_compute; try discriminate; lia);
-      try (pose proof (long_within_sentinels 0 3); pose proof (long_within_sentinels 0 10); pose proof (long_within_sentinels 0 25); lia).
+  - repeat constructor; cbn [good_op]; apply good_val_long; change (2 ^ 63) with 9223372036854775808; lia.
   - vm_compute. reflexivity.
 Qed.
